@@ -41,6 +41,9 @@ func genString(r *plan.Rng) string {
 		return longString(r, r.Range(4000, 4200))
 	case 3:
 		return strings.Repeat("p", r.Range(0, 70))
+	case 4:
+		// many ill-formed bytes: every one of them grows the stream buffer by two
+		return strings.Repeat("\xff", r.Range(200, 700)) + "tail"
 	}
 	return interestingStrings[r.Intn(len(interestingStrings))]
 }
